@@ -106,6 +106,13 @@ def check_bin(r, b, tag):
         r.ob("A7.anchor" + sfx, "bin", False, "no main body", key="A7.anchor|main" + sfx)
         return
     main_b = mains[0]
+    # look through private helper functions of the binary (extracted by refactorings); generated clap impls and
+    # the conversion impls of args.rs keep their function boundary (R12.5 reads them)
+    def helper(cb, t):
+        return not cb.name.startswith("<") and "::<impl " not in cb.name and cb.kind in ("fn", "assoc_fn") and cb.name not in ("main",)
+    run_name = run_b.name
+    run_b = mir.inline_calls(b, run_b, helper)
+    main_b = mir.inline_calls(b, main_b, lambda cb, t: helper(cb, t) and cb.name != run_name)
 
     # ---- effects in run
     effects = [(effect_kind(cs.node), cs) for cs in run_b.calls() if effect_kind(cs.node)]
@@ -289,6 +296,14 @@ def check_options(r, run_b, render_site, sfx):
         r.ob("R12.4.options" + sfx, run_b.name, False, "options argument is not a variable", site=render_site, key="R12.4|var" + sfx)
         return
     l = root["l"]
+    for _ in range(6):
+        ds = run_b.defs().get(l, [])
+        if len(ds) == 1 and ds[0].si is not None and ds[0].node["k"] == "assign" and not ds[0].node["place"]["p"] and ds[0].node["rv"]["k"] == "use":
+            src = mir.op_place(ds[0].node["rv"]["op"])
+            if src is not None and not src["p"] and not (1 <= src["l"] <= run_b.arg_count):
+                l = src["l"]
+                continue
+        break
     defs = run_b.defs().get(l, [])
     stages = {}
     other = []
@@ -414,47 +429,70 @@ def check_main(r, b, main_b, run_b, tag, sfx):
     okc = cfg[0] == "call" and cfg[1] in ("clap::Parser::parse",)
     r.ob("R12.6.args-from-clap" + sfx, "main", okc, "run receives Args::parse()" if okc else "run receives %s" % term_s(cfg)[:60],
          site=calls_run[0], key="R12.6|parse" + sfx)
-    # result handed to unwrap_or_else(closure)
+    # result handed to unwrap_or_else(closure), or matched in main (`if let Err(err) = run(..) {..}`)
     handler = None
+    h_blocks = None
+    err_is = None
     for cs in main_b.calls():
         if cname(cs.node) == "std::result::Result::unwrap_or_else":
             a0 = strip(term_of(main_b, cs.node["args"][0]))
             if a0[0] == "call" and len(a0) > 3 and a0[3] == calls_run[0]:
                 clo = arg_ty(main_b, cs.node["args"][1]).get("closure")
                 handler = b.bodies.get(clo)
+                if handler is not None:
+                    h_blocks = set(handler.reachable())
+                    err_is = lambda t: strip(t) == ("arg", 2)
+    if handler is None:
+        for bb in sorted(main_b.reachable()):
+            sw = mir.switch_enum(main_b, bb)
+            if sw is None or sw["enum"] != "std::result::Result":
+                continue
+            pt = strip(term_of(main_b, sw["place"]))
+            if pt[0] == "call" and len(pt) > 3 and pt[3] == calls_run[0]:
+                et = mir.variant_target(sw, main_b, "Err")
+                if et is not None:
+                    handler = main_b
+                    h_blocks = main_b.reach_from(et) - (main_b.reach_from(mir.variant_target(sw, main_b, "Ok")) if mir.variant_target(sw, main_b, "Ok") is not None else set())
+
+                    def err_is(t, _run=calls_run[0]):
+                        t = strip(t)
+                        if t[0] == "proj" and t[1][0] == "call" and len(t[1]) > 3 and t[1][3] == _run and any(e != "*" and e[0] == "dc" and e[1] == "Err" for e in t[2]):
+                            return True
+                        if t[0] == "local":
+                            return any(d.si is not None and d.node["k"] == "assign" and d.node["rv"]["k"] == "use" and err_is(term_of(main_b, d.node["rv"]["op"]))
+                                       for d in main_b.defs().get(t[1], []))
+                        return False
     for cs in main_b.calls():
         k = effect_kind(cs.node)
-        if k in ("exit", "stdout", "fs-write", "write"):
-            r.ob("R12.6.main-effects" + sfx, "main: %s" % cname(cs.node), False, "main itself performs `%s`" % cname(cs.node), site=cs,
+        if k in ("exit", "stdout", "fs-write", "write") and not (handler is main_b and cs.bb in h_blocks):
+            r.ob("R12.6.main-effects" + sfx, "main: %s" % cname(cs.node), False, "main itself performs `%s` outside the error handler" % cname(cs.node), site=cs,
                  key="R12.6|main-effect|%s%s" % (cname(cs.node), sfx))
     if handler is None:
-        r.ob("R12.6.error-handler" + sfx, "main", False, "run's result is not handled by unwrap_or_else(<closure>)", site=calls_run[0], key="R12.6|handler" + sfx)
+        r.ob("R12.6.error-handler" + sfx, "main", False, "run's result is neither handled by unwrap_or_else(<closure>) nor matched in main", site=calls_run[0], key="R12.6|handler" + sfx)
         return
     h = handler
-    effs = [(effect_kind(cs.node), cs) for cs in h.calls() if effect_kind(cs.node)]
+    effs = [(effect_kind(cs.node), cs) for cs in h.calls() if effect_kind(cs.node) and cs.bb in h_blocks]
     exits = [cs for k, cs in effs if k == "exit"]
     okx = len(exits) >= 1 and all(cname(e.node) == "std::process::exit" and strip(term_of(h, e.node["args"][0])) == ("const", 1) for e in exits)
     r.ob("R12.6.exit-status-1" + sfx, h.name, okx, "process::exit(1)" if okx else "exit calls: %s" % [(cname(e.node), term_s(strip(term_of(h, e.node["args"][0])))) for e in exits],
          site=exits[0] if exits else mir.line_of(h.span), key="R12.6|exit1" + sfx)
-    # every path through the handler reaches exit: the handler has no return block
-    rets = h.return_blocks()
+    # every path through the handler reaches exit: no return block inside the handler region
+    rets = [x for x in h.return_blocks() if x in h_blocks]
     r.ob("R12.6.handler-always-exits" + sfx, h.name, not rets, "the handler cannot return (every path ends in process::exit)" if not rets
          else "the handler can return without exiting", site=mir.line_of(h.span), key="R12.6|diverges" + sfx)
     bad = [cs for k, cs in effs if k in ("stdout", "fs-write", "write")]
     r.ob("R12.6.handler-no-stdout" + sfx, h.name, not bad, "the handler writes nothing to stdout or to files" if not bad else
          "the handler performs %s" % [cname(c.node) for c in bad], site=(bad or [None])[0], key="R12.6|no-stdout" + sfx)
-    # diagnostic: stderr (default) or log at Error (env_logger), mentioning the error, before exit
-    err_arg = ("arg", 2)
     diag = []
     for k, cs in effs:
         if k == "stderr":
             f = display_args(h, cs.node["args"][0])
-            if f and any(strip(a[1]) == err_arg for a in f[1]):
+            if f and any(err_is(a[1]) for a in f[1]):
                 diag.append(("stderr", cs))
         if k == "log":
             f = fmt.arguments_of(term_of(h, cs.node["args"][1])) if len(cs.node["args"]) > 1 else None
             lvl = strip(term_of(h, cs.node["args"][2])) if len(cs.node["args"]) > 2 else None
-            if f and any(strip(a[1]) == err_arg for a in f[1]) and lvl and lvl[0] == "agg" and lvl[2] == "Error":
+            if f and any(err_is(a[1]) for a in f[1]) and lvl and lvl[0] == "agg" and lvl[2] == "Error":
                 diag.append(("log", cs))
     uncond = [d for d in diag if exits and all(h.dominates(d[1].bb, e.bb) for e in exits)]
     if tag == "env_logger":
